@@ -242,6 +242,7 @@ class SynEngine:
             k = rng.choice((1, 2, 3, 5, 8))
             ops_list = [rng.choice(allops) for _ in range(k)]  # repeats allowed
             basis_arg = ops_list
+            basis_again = list(ops_list)
             basis_tts = [o.value for o in ops_list]
             bdesc = 'custom:' + ','.join(sorted({o.name for o in ops_list}))
         else:
@@ -249,6 +250,7 @@ class SynEngine:
             sp = rng.choice(('enum', 'upper', 'lower'))
             basis_arg = be if sp == 'enum' else (bkind if sp == 'upper' else bkind.lower())
             basis_tts = [o.value for o in be.value]
+            basis_again = basis_arg
             bdesc = f'{bkind}/{sp}'
         normalized = rng.random() < 0.2
         # --- constraints
@@ -397,6 +399,13 @@ class SynEngine:
                 if exc_name(exc) == 'NoSolutionError' and solves == 0:
                     pass  # [] in clauses: decided before the pool was used -- cannot happen here since pools > 0
                 self.violate('fault', f'timeout:{exc_name(exc)}', f'the job timed out; expected SolverTimeOutError, got {exc_name(exc)}: {exc}')
+            elif is_instance_named(exc, ('NoSolutionError',)):
+                # whoever catches NoSolutionError - minimize_subcircuits does, before SolverTimeOutError - reads an
+                # undecided search as "no circuit exists"; judged only where a circuit does exist
+                est0 = leaves_estimate(n, N, len(set(basis_tts)))
+                if est0 <= self.cfg['brute_budget'] * 20 and brute_force(n, N, care, value, basis_tts, cons, self.cfg['brute_budget']) is True:
+                    self.violate('fault', 'timeout:reported-as-no-solution',
+                                 f'the job timed out and the exception raised is a NoSolutionError although a circuit exists: {desc}')
             self.ev['out'] = 'fault:timeout'
             if len(self.res.violations) == nviol0:
                 result, exc, solves, pools = self._retry_after_fault(finder, solver)
@@ -449,6 +458,8 @@ class SynEngine:
                 prev = self.found.get(key)
                 if prev is not None and prev <= N and not cons_calls and prev >= 1:
                     self.violate('completeness', 'metamorphic', f'a {prev}-gate circuit was found earlier, now N={N} reports no solution: {desc}')
+            if not op.get('f') and rng.random() < 0.15:
+                self._second_finder_same_model(rng, cs, fm, n, m, N, care, vals, value, basis_again, basis_tts, normalized, desc)
             return
         # --- a circuit was returned: soundness
         self.ev['out'] = 'circuit'
@@ -458,6 +469,9 @@ class SynEngine:
             self.found[key] = min(self.found.get(key, 99), N)
         self.judge_circuit(result, n, m, N, care, vals, basis_tts, cons, cons_calls, desc)
         self.res.states.add(observe.snap(result)[0].shape_digest() if result is not None else 'none')
+        if not op.get('f') and rng.random() < 0.12:
+            self._second_finder_same_model(rng, cs, fm, n, m, N, care, vals, value, basis_again, basis_tts, normalized, desc)
+            return
         # incremental use: one more constraint on the same finder, then ask again
         if rng.random() < 0.25 and not op.get('f') and internal:
             try:
@@ -519,6 +533,32 @@ class SynEngine:
                 st.bump('find_circuit-called-twice')
             except Exception as e:  # noqa
                 self.violate('second-call', exc_name(e), f'second find_circuit on the same finder raised {exc_name(e)}: {e}')
+
+    def _second_finder_same_model(self, rng, cs, fm, n, m, N, care, vals, value, basis_again, basis_tts, normalized, desc):
+        """The caller keeps its function model and hands the same object to another finder (other normalisation,
+        other budget): the second search is about the function the caller specified, whatever the first finder did."""
+        st = self.res.stats.probes
+        norm2 = (not normalized) if rng.random() < 0.7 else normalized
+        N2 = N if rng.random() < 0.7 else max(1, N + rng.choice((-1, 1)))
+        cons2 = {'fix': {}, 'forbid': set(), 'normalized': norm2}
+        d2 = f'{desc} [then a second finder over the same model object: N={N2} norm={norm2}]'
+        st.bump('second-finder-over-the-same-model-object')
+        res2 = exc2 = None
+        try:
+            res2 = cs.CircuitFinderSat(fm, N2, basis=basis_again, need_normalized=norm2).find_circuit()
+        except Exception as e:  # noqa
+            exc2 = e
+        est = leaves_estimate(n, N2, len(set(basis_tts)))
+        exists2 = brute_force(n, N2, care, value, basis_tts, cons2, self.cfg['brute_budget']) if est <= self.cfg['brute_budget'] * 20 else None
+        if exc2 is not None:
+            if exc_name(exc2) != 'NoSolutionError':
+                self.violate('find-raised', f'{exc_name(exc2)}:second-finder-same-model', f'{d2}: {exc_name(exc2)}: {exc2}')
+            elif exists2 is True:
+                self.violate('completeness', 'second-finder-same-model', f'NoSolutionError although a circuit exists: {d2}')
+            return
+        if exists2 is False:
+            self.violate('soundness', 'circuit-where-none-exists:second-finder-same-model', d2)
+        self.judge_circuit(res2, n, m, N2, care, vals, basis_tts, cons2, [], d2)
 
     def _retry_after_fault(self, finder, solver):
         st = self.res.stats
